@@ -340,13 +340,26 @@ def _literal_guard(ctx, fi: FuncInfo, consts: List[str]) -> bool:
 def r5_eagle(ctx) -> None:
   sc = ctx.index.need_class('vizier.pyvizier.converters.embedder.ProblemAndTrialsScaler')
   un = sc.methods['unmap']
-  t = unparse(un.node, 0)
-  ok = 'to_parameter_values(' in t and 'ParameterType.CATEGORICAL' in t
-  # the non-categorical arm must go through the decoder
-  arm_ok = False
-  for n in ast.walk(un.node):
-    if isinstance(n, ast.If) and 'CATEGORICAL' in unparse(n.test, 0):
-      arm_ok = any('to_parameter_values(' in unparse(s, 0) for s in n.orelse)
+  # every value written into the un-mapped parameters is either under the CATEGORICAL test (left as it is) or comes out
+  # of the clipping decoder
+  g_un = cfgmod.CFG(un.node)
+  prov_un = flow.Provenance(g_un, on_call=lambda c: 'all', on_attr=lambda a: 'through')
+  stores_un = [n for n in g_un.nodes if n.kind == 'stmt' and isinstance(n.ast, ast.Assign) and any(
+      isinstance(t_, ast.Subscript) and 'param' in unparse(t_.value, 0).lower() for t_ in n.ast.targets)]
+  if not stores_un:
+    raise AnalysisError('ProblemAndTrialsScaler.unmap: no store into the parameter dict found')
+  ok = arm_ok = True
+  for n in stores_un:
+    conds = g_un.controlling_conditions(n)
+    cat = any(pol and isinstance(c_, ast.Compare) and len(c_.ops) == 1 and isinstance(c_.ops[0], (ast.Eq, ast.Is)) and
+              any((dotted(x) or '').endswith('ParameterType.CATEGORICAL') for x in (c_.left, c_.comparators[0])) for c_, pol in conds) or \
+        any((not pol) and isinstance(c_, ast.Compare) and len(c_.ops) == 1 and isinstance(c_.ops[0], (ast.NotEq, ast.IsNot)) and
+            any((dotted(x) or '').endswith('ParameterType.CATEGORICAL') for x in (c_.left, c_.comparators[0])) for c_, pol in conds)
+    if cat:
+      continue
+    decoded = any(k == 'call' and isinstance(v.func, ast.Attribute) and v.func.attr in ('to_parameter_values', 'to_parameters')
+                  for k, v in prov_un.origins(n.ast.value, n))
+    arm_ok = arm_ok and decoded
   ctx.check(ok and arm_ok, 'R5', 'ProblemAndTrialsScaler.unmap', un.node,
             'non-categorical values decoded with param_converter.to_parameter_values (clipping decoder)',
             'unmap returns scaled values without the clipping decoder', construct='unmap', func=un.qualname)
